@@ -56,6 +56,14 @@ def stages(tier, seed, bins):
         else:
             c["kernel"] = rnd.choice(["linear", "rbf", "poly"]) if em == "dense" else "linear"
             c["gamma"] = rnd.choice([0.05, 0.5])
+        # the same data measured in another unit (widths / kernel parameters converted with it): every clause is scale free
+        # (not with the polynomial kernel (x.y + 1)^2: in a tiny unit all its values are 1 + O(1e-12) and centring them cancels
+        # twelve digits whatever the implementation does - an ill-conditioned input, not a scale-free one)
+        if rnd.random() < 0.15 and c.get("kernel") != "poly":
+            xs = rnd.choice([1e-6, 1e-3, 1e3, 1e6])
+            c["xscale"] = xs
+            if "gamma" in c:
+                c["gamma"] = repr(c["gamma"] / (xs * xs))
         cases.append(c)
     # sizes beyond any "small problem" switch an implementation may have (size-gated code paths, e.g. `if (N > 1000)`)
     for N in ([1100] if tier != "thorough" else [1001, 1100, 1500, 2000]):
